@@ -424,7 +424,9 @@ def run(S):
     from mirsym import models_typst as MT
     MT.KT = MT.KindTable(S.driver, S.adts)
     fdeep, covd = conserve.explore(S, want=('C12',), per_kind=40 if S.tier == 'quick' else 600, max_nodes=18 if S.tier == 'quick' else 50, deep=True)
-    fdocs, covdocs = deep.explore(S, deep.DOCS + ['$ mat(a, // c\n b; c) $\n', '$ mat(\n  a, b; // c\n  c, d\n) $\n', '$ f(a; // c\n b) $\n', '#f(a, // c\n b)\n', '#(a, // c\n b,\n\n c)\n', '$ mat(a, /* c\n d */ b; c) $\n', '#let s = "a\n  b"\n#f(s,\n  1)\n'], want=('C12',))
+    fdocs, covdocs = deep.explore(S, deep.DOCS + ['$ mat(a, // c\n b; c) $\n', '$ mat(\n  a, b; // c\n  c, d\n) $\n', '$ f(a; // c\n b) $\n', '#f(a, // c\n b)\n', '#(a, // c\n b,\n\n c)\n', '$ mat(a, /* c\n d */ b; c) $\n', '#let s = "a\n  b"\n#f(s,\n  1)\n',
+                                                      '#(a://\n//\n1)\n', '#{\n  if x {} // c\n  // d\n  else {}\n}\n', '#f(x => // c\n// d\n1)\n', '#let v = // c\n// d\n 1\n', '#(- // c\n// d\n a)\n', '$ a / // c\n// d\n b $\n',
+                                                      '#{\n  for x // c\n  // d\n  in y {}\n}\n', '#set // c\n// d\n text(red)\n' if False else '#f(k: // c\n// d\n v)\n'], want=('C12',))
     for lab, info in fdeep + fdocs:
         found.append((lab.split(':', 1)[1], dict(info, site=info.get('kind') or 'document', function='deep')))
     und = sum(c['shapes'] - c['decided'] for c in covd.values())
@@ -497,7 +499,7 @@ CORPUS = [
     '#let v = a // c\n  + b\n', '#{\n  let v = aaa and // c\n    bbb\n}\n', '#let v = a + f(\n  1,\n) + (\n  2,\n)\n', '#f(a // c\n  + b)\n',
     '#let w = a.b // c\n  .c()\n', '$ f(a, // c\n  b) $\n', '#let g = (x /* c */, // d\n  y) => x\n', '#{\n  x = a // c\n    * b\n}\n',
     '$ [ a +\nb +\nc ] $\n', '$ f(x) = ( a\n+ b ) $\n', '$ { a\n  b } $\n', '$ (\n  a\n) $\n', '$ vec(\n  a,\n  b,\n) $\n', '$\n  a \\\n  b\n$\n',
-    '$ mat(a, // c\n b; c) $\n', '$ mat(\n  a, b; // c\n  c, d\n) $\n', '$ f(a; // c\n b) $\n', '#f(a, // c\n b)\n', '#(a, // c\n b,\n\n c)\n',
+    '$ mat(a, // c\n b; c) $\n', '#(a://\n//\n1)\n', '#{\n  if x {} // c\n  // d\n  else {}\n}\n', '#f(x => // c\n// d\n1)\n', '#f(k: // c\n// d\n v)\n', '$ mat(\n  a, b; // c\n  c, d\n) $\n', '$ f(a; // c\n b) $\n', '#f(a, // c\n b)\n', '#(a, // c\n b,\n\n c)\n',
     '#a.bb.c(\n1,\n2)\n', '#{\n  aaaaaaaa.bbbbbbbb.cccc(\n    x,\n    y,\n  )\n}\n', '#let v = aaaa.bbbb.cccc(1, 2).dddd\n', '#f(aaaa.bbbb.cccc(\n  x,\n))\n',
     '#{\n  let v = aaaaaa.bbbbbb.cccccc(\n    // c\n    x,\n  )\n}\n', '#aaaaaaaaaaaa.bbbbbbbbbbbb.cccccccc(\n  1,\n  2,\n)\n',
     '#let long = aaaaaaaaaaaaaaaaaaaaaaaaaaaaaa + bbbbbbbbbbbbbbbbbbbbbbbbbbbbbbbbbbbb + cccccccccccccccccccccccccccccccccccccc + dddddddddddddddddddddddddddddd\n',
